@@ -383,6 +383,7 @@ func vfC17Run(c vfC17Case, ctx *vfCtx) *vfViolation {
 			var wins atomic.Int32
 			handles := make([]*PersistentHybridIndex, op.G)
 			start := make(chan struct{})
+			ownedBefore := vfDirSnapshot(dir)
 			for g := 0; g < op.G; g++ {
 				wg.Add(1)
 				go func(g int) {
@@ -409,6 +410,11 @@ func vfC17Run(c vfC17Case, ctx *vfCtx) *vfViolation {
 			}
 			if got != want {
 				return vfFail("op %d: %d goroutines raced to open the directory (owned before: %v): %d opens succeeded, want %d", i, op.G, owner >= 0, got, want)
+			}
+			if owner >= 0 {
+				if after := vfDirSnapshot(dir); after != ownedBefore {
+					return vfFail("op %d: %d refused opens of an owned directory modified it:\n%s", i, op.G, vfFirstDiff(ownedBefore, after))
+				}
 			}
 			if owner < 0 && vfLockExists(dir) {
 				return vfFail("op %d: LOCK left behind after the winner of an open race closed", i)
